@@ -157,3 +157,66 @@ def truncated_expectation(seg, cut_bytes):
             rows.append(remaining // w)
             done = True
     return rows
+
+
+@st.composite
+def daqmx_packed_file(draw, max_segments=2, max_channels=4, max_buffers=2, max_len=4, max_chunks=3):
+    """DAQmx files whose format-changing scalers do not overlap (each field owns its bytes), so that the same logical
+    values can be re-encoded in the other byte order (C15). All segments little-endian; see reencode_big_endian."""
+    nch = draw(st.integers(1, max_channels))
+    nbuf = draw(st.integers(1, max_buffers))
+    lens = [draw(st.integers(1, max_len)) for _ in range(nbuf)]
+    cursor = [0] * nbuf
+    entries = []
+    for ci in range(nch):
+        b = draw(st.integers(0, nbuf - 1))
+        ns = draw(st.integers(1, 3))
+        typed = ns == 1 and draw(st.booleans())
+        scalers = []
+        for sid in range(ns):
+            stype = draw(st.sampled_from(FC_TYPES))
+            cursor[b] += draw(st.integers(0, 2))            # padding
+            scalers.append({'type': stype, 'buf': b, 'off': cursor[b], 'fmt': 0, 'id': sid})
+            cursor[b] += tsize(stype)
+        entries.append({'path': make_path('d', 'ch%d' % ci), 'hdr': 'daqmx', 'kind': 'fc',
+                        'chan_type': scalers[0]['type'] if typed else 'raw', 'n': lens[b], 'scalers': scalers,
+                        'props': [] if typed else [['NI_Number_Of_Scales', 'u32', ns]]})
+    widths = [max(1, cursor[b] + draw(st.integers(0, 2))) for b in range(nbuf)]
+    used = set(s['buf'] for e in entries for s in e['scalers'])
+    eff = [lens[b] if b in used else 0 for b in range(nbuf)]
+    for e in entries:
+        e['widths'] = list(widths)
+    segs = []
+    for _si in range(draw(st.integers(1, max_segments))):
+        nchunks = draw(st.integers(1, max_chunks))
+        buffers = [[draw(st.binary(min_size=eff[b] * widths[b], max_size=eff[b] * widths[b])) for b in range(nbuf)]
+                   for _k in range(nchunks)]
+        segs.append({'be': False, 'interleaved': False, 'version': 4713, 'meta': True, 'newlist': True, 'daqmx': True,
+                     'entries': [dict(e) for e in entries], 'active': [[e['path'], 'daqmx', e['n']] for e in entries],
+                     'nchunks': nchunks, 'buffers': buffers, 'buf_lens': eff, 'widths': list(widths)})
+    return {'segments': segs}
+
+
+def reencode_big_endian(seg):
+    """the same logical scaler values in a big-endian segment: every scaler field of every row byte-reversed"""
+    out = dict(seg)
+    out['be'] = True
+    new_chunks = []
+    for bufs in seg['buffers']:
+        nb = []
+        for b, blob in enumerate(bufs):
+            ba = bytearray(blob)
+            w = seg['widths'][b]
+            rows = len(ba) // w if w else 0
+            for e in seg['entries']:
+                for s in e['scalers']:
+                    if s['buf'] != b or e['kind'] != 'fc':
+                        continue
+                    size = tsize(s['type'])
+                    for r in range(rows):
+                        a = r * w + s['off']
+                        ba[a:a + size] = ba[a:a + size][::-1]
+            nb.append(bytes(ba))
+        new_chunks.append(nb)
+    out['buffers'] = new_chunks
+    return out
